@@ -348,6 +348,18 @@ def handle (j : Json) : Except String Json := do
       | some p => Json.mkObj [("files", SL p.files), ("output", optS p.output), ("recursive", p.recursive), ("prefix", optS p.pfx),
           ("settings", optS p.settings), ("excludes", SL p.excludes)]
     pure (Json.mkObj [("argv", SL argv), ("parsed", pj (parseArgv argv {}))])
+  | "procs" =>
+    -- the names for which the model has a `process_<name>` method, and which of them have an include_undocumented_ flag
+    let names := ["function", "macro", "cmake_parse_arguments", "ct_add_test", "ct_add_section", "set", "cpp_class", "cpp_member",
+                  "cpp_constructor", "cpp_attr", "add_test", "option", "generic_command", "docs", "foo_bar"]
+    let known := names.filter (fun n => (procOf n.toList).isSome)
+    let flagged := known.filter (fun n => match procOf n.toList with | some p => (({} : Cfg).include p).isSome | none => false)
+    pure (Json.mkObj [("procs", Json.arr (known.map Json.str).toArray), ("flagged", Json.arr (flagged.map Json.str).toArray)])
+  | "optiontable" =>
+    let tyName : CType → String
+      | .bool => "bool" | .str => "str" | .optStr => "optStr" | .strSeq => "strSeq" | .optList => "optList"
+      | .optFilename => "optFilename" | .dict => "dict"
+    pure (Json.mkObj (optionTable.map (fun (k, ty) => (String.ofList k, Json.str (tyName ty)))))
   | "rstops" =>
     let hc ← getStr j "hc"
     let title ← getStr j "title"
